@@ -152,6 +152,12 @@ def _r8(ctx):
                 ctx.holds(fi, sub, "%s: %s and %s are selections of objects of the accessor itself" % (name, a, b))
                 continue
             # an alignment `foreign = <foreign...>.reindex(<own>.index)` as a statement of the method body before the first use
+            # of a helper that (transitively) contains the positional pairing
+            helpers_ = {h.name: h for h in ast.walk(fi.node) if isinstance(h, ast.FunctionDef) and h is not fi.node}
+            pairing_helpers = {nm_ for nm_, h in helpers_.items() if any(x is sub for x in ast.walk(h))}
+            for _ in range(3):
+                pairing_helpers |= {nm_ for nm_, h in helpers_.items()
+                                    if any(isinstance(x, ast.Name) and x.id in pairing_helpers for x in ast.walk(h))}
             aligned = None
             for st in fi.node.body:
                 if isinstance(st, ast.FunctionDef):
@@ -164,12 +170,9 @@ def _r8(ctx):
                     aligned = st
                     break
                 if any(x is sub for x in ast.walk(st)) or (isinstance(st, (ast.If, ast.Assign, ast.Return, ast.Expr)) and
-                                                            not isinstance(st, ast.FunctionDef) and
                                                             any(isinstance(x, ast.Name) and x.id == foreign and isinstance(x.ctx, ast.Load)
                                                                 for x in ast.walk(st)) and
-                                                            any(isinstance(x, ast.Call) and isinstance(x.func, ast.Name) and
-                                                                x.func.id in {h.name for h in ast.walk(fi.node)
-                                                                              if isinstance(h, ast.FunctionDef)}
+                                                            any(isinstance(x, ast.Name) and x.id in pairing_helpers
                                                                 for x in ast.walk(st))):
                     break
             if aligned is not None:
@@ -971,6 +974,15 @@ def _r4(ctx):
         dd = [x for x in g.node.body if isinstance(x, ast.Assign) and isinstance(x.targets[0], ast.Name) and
               x.targets[0].id == ls[0].args[1].id]
         mx = dd[0].value if len(dd) == 1 else None
+        gparams = [a_.arg for a_ in g.node.args.args]
+        if mx is None and ls[0].args[1].id in gparams:
+            # the upper end is a parameter of the helper: what the (single) call site passes
+            sites = [c_ for c_ in calls_in(rb.node) if isinstance(c_.func, ast.Name) and c_.func.id == g.node.name]
+            i_ = gparams.index(ls[0].args[1].id)
+            if len(sites) == 1 and i_ < len(sites[0].args):
+                mx = inline_single_defs(rb.node, sites[0].args[i_])
+    elif len(ls) == 1:
+        mx = ls[0].args[1]                        # written in place
     if len(ls) == 1 and const_value(ls[0].args[0]) == 0 and isinstance(mx, ast.Call) and isinstance(mx.func, ast.Attribute) \
             and mx.func.attr == "max" and isinstance(mx.func.value, ast.Name):
         ctx.holds(g, ls[0], "bins span [0, max range]; the first bin starts at 0 (closed on the left)")
